@@ -7,7 +7,7 @@ from . import dispatch as D, convert as CV, contrib as CB
 from .c08 import C_bytes
 
 LEVEL = "other"
-TECHNIQUE = "emission tables: each non-numeric ResponseData writer (block, &str, character, expression, quoted string, error item, Vec/ArrayVec lists) is interpreted by the FDAI engine on representative values - helpers and nested workspace writers analysed in place, Formatter calls as events - and everything it sends to the Formatter is compared with the IEEE 488.2 section 8.7 encoding computed independently, including the failure paths (prefix-only output, error returned); FDAI write tables for the 40 integer writers, real sentinels and bool; writer/reader agreement (first emitted byte class vs the accept matrix; radix prefix vs the lexer's radix table); enum response text by constant folding (shared with C20); custom error items with standard numbers keep their own text; typed echo tables (sa/rules/echotable.py, witness/echo): `Node::run` folded end to end on messages to a witness command that pulls one parameter of the type (`next_data::<T>()` / `next_optional_data`) and writes it back - lexer, dispatcher, Parameters, the conversion, the ResponseData writer and the formatter analysed in place, lexical-core's parsers / integer writer by contract - the answer compared with a reference written from the property's statement: string / block / character / expression data read and written back (quotes doubled, block header stating the payload length); the decimal text of MIN / MAX of every integer type folded through the type's own reader"
+TECHNIQUE = "emission tables: each non-numeric ResponseData writer (block, &str, character, expression, quoted string, error item, Vec/ArrayVec lists) is interpreted by the FDAI engine on representative values - helpers and nested workspace writers analysed in place, Formatter calls as events - and everything it sends to the Formatter is compared with the IEEE 488.2 section 8.7 encoding computed independently, including the failure paths (prefix-only output, error returned); FDAI write tables for the 40 integer writers, real sentinels and bool; writer/reader agreement (first emitted byte class vs the accept matrix; radix prefix vs the lexer's radix table); enum response text by constant folding (shared with C20); custom error items with standard numbers keep their own text; typed echo tables (sa/rules/echotable.py, witness/echo): `Node::run` folded end to end on messages to a witness command that pulls one parameter of the type (`next_data::<T>()` / `next_optional_data`) and writes it back - lexer, dispatcher, Parameters, the conversion, the ResponseData writer and the formatter analysed in place, lexical-core's parsers / integer writer by contract - the answer compared with a reference written from the property's statement: string / block / character / expression data read and written back (quotes doubled, block header stating the payload length); the decimal text of MIN / MAX of every integer type folded through the type's own reader; float writers folded on values of each class (NaN, +/-inf, negative zero, +0, subnormal, ordinary, extreme) with the sign of a negative zero demanded in front of the digits lexical-core writes (R09.2, F24); the unit-level latch and finish() idempotence tables (R09.13); the largest value of each non-decimal writer read back through the lexer's table (R09.8)"
 LEVEL_TEXT = "For strings, blocks (payload lengths across 9/10, 99/100, 999/1000; the 9-digit limit observed by substituting the length writer), character/expression data, error items (standard and custom codes, with and without extended text, embedded quotes, non-ASCII text) and lists of 0..5 elements the complete output of the writer is computed from its MIR and must equal the reference encoding; every path on which a Formatter call fails must have written a prefix of it and return the error. For numbers: which lexical-core writer produces the digits (instantiated at the value's own type, on the value itself), that the returned slice is what is pushed, buffer sizes, prefixes and sentinels as constants. For types that are also parameters the class of the first emitted byte is mapped through the lexer's dispatch to a token kind the type's own converter accepts."
 LEVEL_NOTE = "Not decided: the digit strings lexical-core produces (its contract, audited once against the pinned crate: every finite value is written in a form that reads back to the same bits except negative zero, whose sign it drops - the float writers are therefore folded on values of each class, with a row for negative zero that demands the sign in front of the digits, F24) and round-trip equality over all values; finite floats are written with lower-case `e` and unsigned exponent as pinned by the existing tests. Trusted: rustc MIR, lexical-core write contracts, FDAI models."
 
